@@ -889,3 +889,31 @@ Theorem C18_model_is_source_cli_evaluate_model_seedless :
   SrcCli.src_cli_evaluate_model Scr Th Pr PrT Ob Nm Ev L a = Cli.cli_evaluate_model L a.
 Proof. exact C10SourceCli.src_cli_evaluate_model_is_model. Qed.
 Print Assumptions C18_model_is_source_cli_evaluate_model_seedless.
+
+(* ---- the initial cover (gap review g5, gap 6).  SparseCoverPlateGenerator is linked under C13 in state-passing form (the answer
+   stream `ds` an explicit argument, rng.choice(a, size=1) on the function's OWN generator argument the only primitive that reads it:
+   Generated/SrcRetroGen.v; np.random.*, default_rng(), torch are no primitives and are refused).  C18's statement for it: output and
+   unread rest depend on the consumed prefix of the answers only - of the model, and of the translated source with the fuel C13
+   proves sufficient.  (Kept LAST: its import closure is the C13 link file.) *)
+From Batchie Require Model.Retro Model.RetroInit Proofs.C18SparseCover.
+Theorem C18_sparse_cover_explicit_stream : forall ctrl reveal rows ds out ds',
+  RetroInit.sparse_cover ctrl reveal rows ds = Ok (out, ds') ->
+  exists used, ds = used ++ ds' /\ forall tail, RetroInit.sparse_cover ctrl reveal rows (used ++ tail) = Ok (out, tail).
+Proof. exact C18SparseCover.sparse_cover_explicit_stream. Qed.
+Print Assumptions C18_sparse_cover_explicit_stream.
+
+From Batchie Require Generated.SrcRetroGen Proofs.C13SparseTerm Proofs.C18SourceSparseCover.
+Theorem C18_source_sparse_cover_explicit_stream : forall ctrl reveal rows ds out ds',
+  SrcRetroGen.src_generate_and_unmask_initial_plate
+    (fun s d => SrcRetroGen.src_sparse_cover ctrl reveal s d (S (C13SparseTerm.ndistinct (RetroInit.all_tids ctrl rows)))) rows ds = Ok (out, ds') ->
+  exists used, ds = used ++ ds' /\
+    forall tail, SrcRetroGen.src_generate_and_unmask_initial_plate
+                   (fun s d => SrcRetroGen.src_sparse_cover ctrl reveal s d (S (C13SparseTerm.ndistinct (RetroInit.all_tids ctrl rows)))) rows (used ++ tail)
+                 = Ok (out, tail).
+Proof. exact C18SourceSparseCover.src_sparse_cover_explicit_stream. Qed.
+Print Assumptions C18_source_sparse_cover_explicit_stream.
+
+(* non-vacuity: C13's own examples run sparse_cover on concrete screens (Props/C13.v); here only that the prefix may be proper *)
+Example C18_sparse_cover_empty_screen_example :
+  RetroInit.sparse_cover [] false [] [Retro.DInts [7%nat]] = Ok ([], [Retro.DInts [7%nat]]).
+Proof. vm_compute. reflexivity. Qed.
